@@ -1,6 +1,6 @@
 SPECIFICATION Spec
 CONSTANTS
-  Devs = {"StrEscapeTrunc", "CharConstCpRange"}
+  Devs = {"StrEscapeTrunc"}
   Mode = "exh"
   Tier = "thorough"
 INVARIANTS Inv_Refines Inv_NoAbort Inv_Wf Inv_Emit
